@@ -583,6 +583,15 @@ def num_leaf(I, fr, callee, args, dest, argops, line):
     t = I.F.types[dest]
     if name in simple and len(args) == 2:
         return tm.iop(simple[name], ty, args[0], args[1])
+    if name == 'wrapping_neg' and len(args) == 1:
+        return tm.iun('neg', ty, args[0])
+    if name == 'count_ones' and len(args) == 1:
+        bs = tm.bits_of(args[0], int(ty[1:])) if args[0].op in tm._BITSY_OPS else None
+        if bs is not None:
+            live = [b for b in bs if b is not FALSE]
+            if all(b is TRUE for b in live):
+                return const(len(live), 4)
+            return mk('popcnt', *live)
     if name in ('checked_add', 'checked_sub', 'checked_mul') and all(tm.is_const(a) for a in args):
         # constant folding (slice-range arithmetic on literal bounds)
         bits, signed = tm.ity_parse(ty)
